@@ -1,4 +1,201 @@
 package sim
 
-// RunTail runs the stabilised tail (C05).
-func RunTail(w *World, adv *Adversary, p *Profile, res *Result) {}
+import (
+	"github.com/orbs-network/lean-helix-go/spec/types/go/protocol"
+
+	"verif/ref"
+	"verif/spi"
+)
+
+// RunTail is the stabilised tail of a case (C05): from now on every in-flight
+// message is delivered before the next virtual election timer expires, timers
+// expire in virtual-time order (base*2^view after arming), nothing is dropped,
+// and the adversary keeps sending. Two view-bounded obligations are judged:
+// progress and completeness (see DESIGN.md, C05).
+func RunTail(w *World, adv *Adversary, p *Profile, res *Result) {
+	m := w.Mon
+	_, hi := w.Heights()
+	if hi > w.Cfg.MaxH || hi == 0 {
+		m.Stats["C05 not judged: every explored height already decided"]++
+		return
+	}
+	// laggards are brought to the highest height by node sync (the environment's job, not consensus')
+	for _, id := range w.Order {
+		n := w.Nodes[id]
+		if uint64(n.St.Height()) < hi {
+			if c, ok := w.Canon[hi-1]; ok {
+				w.SyncNode(n, c.Block, c.Proof)
+			}
+		}
+	}
+	H := hi
+	var deciding []*Node
+	var ids []string
+	for _, id := range w.Order {
+		n := w.Nodes[id]
+		if uint64(n.St.Height()) == H {
+			deciding = append(deciding, n)
+			ids = append(ids, id)
+		}
+	}
+	c := w.Comm(H)
+	if !c.IsQuorum(ids) {
+		m.Stats["C05 not judged: deciding correct weight below quorum"]++
+		return
+	}
+	vmax := uint64(0)
+	for _, n := range deciding {
+		if v := uint64(n.St.View()); v > vmax {
+			vmax = v
+		}
+	}
+	if vmax+2*uint64(c.N())+4 > MaxTimerView {
+		m.Stats["C05 not judged: views beyond the range of the virtual timers"]++
+		return
+	}
+	m.Stats["C05 tails judged"]++
+	w.GST = true
+	w.Clock = 1 << 60
+	for _, n := range deciding {
+		if v := uint64(n.St.View()); v > vmax {
+			vmax = v
+		}
+		if n.ES.Armed {
+			// the timer was armed at some earlier moment: its remaining time is anything in (0, timeout]
+			dur := n.ES.Expiry() - n.ES.ArmAt
+			n.ES.ArmAt = w.Clock - uint64(w.Rng.Int63n(int64(dur)))
+		}
+	}
+	if vmax > 0 {
+		m.Stats["C05 tails starting above view 0"]++
+	}
+	bound := vmax + 2*uint64(c.N()) + 2
+	stabEmit := w.emit
+	committed := func(n *Node) bool { _, ok := n.Commits[H]; return ok || uint64(n.St.Height()) > H }
+	advPct := 0
+	if adv.Active() {
+		advPct = 5 + w.Rng.Intn(20)
+	}
+	completenessDone := false
+	for iter := 0; iter < 4000; iter++ {
+		// zero-latency phase: everything in flight is delivered, in emission order
+		for guard := 0; len(w.Pool) > 0 && guard < 20000; guard++ {
+			f := w.TakeFlight(0)
+			if f.Msg != nil && f.Msg.H > w.Cfg.MaxH {
+				continue
+			}
+			w.Deliver(f)
+			m.Stats["delivered"]++
+			if advPct > 0 && w.Rng.Intn(100) < advPct {
+				adv.Step()
+			}
+		}
+		// quiescent
+		nCommitted := 0
+		for _, n := range deciding {
+			if committed(n) {
+				nCommitted++
+			}
+		}
+		if nCommitted > 0 && !completenessDone {
+			completenessDone = true
+			m.judgeCompleteness(H, deciding, stabEmit)
+		}
+		if nCommitted > 0 {
+			m.Stats["C05 tails with commit"]++
+			res.TailViews = int(maxView(deciding) - vmax)
+			return
+		}
+		// the earliest armed timer of a deciding node expires
+		var next *Node
+		for _, n := range deciding {
+			if n.ES.Armed && uint64(n.St.Height()) == H && (next == nil || n.ES.Expiry() < next.ES.Expiry()) {
+				next = n
+			}
+		}
+		if next == nil {
+			m.violate("C05", "no-armed-timer-and-no-commit", "height %d: after stabilisation no deciding correct node has an armed election timer and none committed", H)
+			return
+		}
+		if e := next.ES.Expiry(); e > w.Clock {
+			w.Clock = e
+		}
+		w.Timeout(next)
+		m.Stats["timeouts"]++
+		if mv := maxView(deciding); mv > bound {
+			lead := c.Leader(mv)
+			m.violate("C05", "no-commit-within-view-bound", "height %d: stabilised at max view %d, reached view %d (bound %d = vmax + 2n + 2) with no commit at any correct node (leader of that view: %s, correct=%v)", H, vmax, mv, bound, lead, w.IsCorrect(lead))
+			return
+		}
+	}
+	m.Stats["C05 tail iteration cap reached"]++
+}
+
+func maxView(nodes []*Node) uint64 {
+	mv := uint64(0)
+	for _, n := range nodes {
+		if v := uint64(n.St.View()); v > mv {
+			mv = v
+		}
+	}
+	return mv
+}
+
+// judgeCompleteness: every correct node that stored the committing view's proposal commits it,
+// provided that proposal was emitted after stabilisation.
+func (m *Monitors) judgeCompleteness(H uint64, deciding []*Node, stabEmit uint64) {
+	w := m.w
+	var rec *CommitRec
+	for _, n := range deciding {
+		if c, ok := n.Commits[H]; ok && (rec == nil || c.Seq < rec.Seq) {
+			rec = c
+		}
+	}
+	if rec == nil {
+		return
+	}
+	br := protocol.BlockProofReader(rec.Proof).BlockRef()
+	view, hash := uint64(br.View()), string(br.BlockHash())
+	post := false
+	found := false
+	for _, f := range w.Seen {
+		msg := f.Msg
+		if msg == nil || msg.H != H || msg.V != view || string(msg.Hash) != hash || (msg.Env != ref.EnvPP && msg.Env != ref.EnvNV) {
+			continue
+		}
+		if !found {
+			found = true
+			post = f.Emit > stabEmit
+		}
+	}
+	if !found || !post {
+		m.Stats["C05 completeness not judged: committing view's proposal predates stabilisation"]++
+		return
+	}
+	// the clause is about the view that correct members of quorum weight joined; a commit that needed Byzantine COMMITs
+	// (sent to some correct nodes only) is outside it
+	var acceptors []string
+	for _, n := range deciding {
+		if _, done := n.Commits[H]; done {
+			acceptors = append(acceptors, n.Id)
+			continue
+		}
+		if pp, ok := n.Store.GetPreprepareMessage(primitivesH(H), primitivesV(view)); ok && pp != nil && string(pp.Content().SignedHeader().BlockHash()) == hash && pp.Block() != nil {
+			acceptors = append(acceptors, n.Id)
+		}
+	}
+	if !w.Comm(H).IsQuorum(acceptors) {
+		m.Stats["C05 completeness not judged: correct acceptors below quorum weight (commit needed Byzantine help)"]++
+		return
+	}
+	m.Stats["C05 completeness judged"]++
+	for _, n := range deciding {
+		if pp, ok := n.Store.GetPreprepareMessage(primitivesH(H), primitivesV(view)); ok && pp != nil && string(pp.Content().SignedHeader().BlockHash()) == hash && pp.Block() != nil {
+			if _, done := n.Commits[H]; !done && uint64(n.St.Height()) == H {
+				m.violate("C05", "acceptor-of-committing-view-left-behind", "height %d view %d: node %s accepted the proposal that was committed (emitted after stabilisation) but has not committed it once the network is quiescent", H, view, n.Id)
+			}
+		}
+	}
+}
+
+var _ = spi.HashOf
